@@ -326,34 +326,40 @@ def judge(case, cir, res=None):
     """Property oracle on the implementation (no Coq). Returns None or (description, expected, observed)."""
     res = res or run_impl(case, cir)
     if res["raised"]:
-        return ("the history raised: " + res["raised"], "no exception", res["raised"])
+        return ("raise", "the history raised: " + res["raised"], "no exception", res["raised"])
     if res["problems"]:
-        return (res["problems"][0], "in-place update of exactly the given, gradient-requiring parameters", res["problems"])
+        return ("identity", res["problems"][0], "in-place update of exactly the given, gradient-requiring parameters", res["problems"])
     spec = run_spec(case)
     exact = case["class"] == "SGD"
+    alias = None
     for k, (o, s) in enumerate(zip(res["obs"], spec)):
         for i, (row, want) in enumerate(zip(o["tensors"], s)):
             for a, b in zip(row["data"], want):
                 if (a != b) if exact else abs(float(a) - float(b)) > TOL * max(1.0, abs(float(b))):
-                    return ("after event %d (%s) tensor %d is %s, documentation algorithm gives %s" % (k, case["events"][k][0], i, [str(x) for x in row["data"]], [str(F(x).limit_denominator(10**12)) for x in want]),
+                    return ("trajectory", "after event %d (%s) tensor %d is %s, documentation algorithm gives %s" % (k, case["events"][k][0], i, [str(x) for x in row["data"]], [str(F(x).limit_denominator(10**12)) for x in want]),
                             [str(F(x).limit_denominator(10**12)) for x in want], [str(x) for x in row["data"]])
             for name, v in row["slots"].items():
                 if isinstance(v, dict) and v["alias"]:
-                    return ("after event %d slot %s of tensor %d is the gradient buffer itself" % (k, name, i), "own storage", "aliased")
+                    alias = alias or ("alias", "after event %d slot %s of tensor %d is the gradient buffer itself" % (k, name, i), "own storage", "aliased")
     if torch_applicable(case):
         tr = run_torch(case, cir)
         for k, (o, s) in enumerate(zip(res["obs"], tr)):
             for i, (row, want) in enumerate(zip(o["tensors"], s)):
                 for a, b in zip(row["data"], want):
                     if abs(float(a) - b) > TOL * max(1.0, abs(b)):
-                        return ("after event %d (%s) tensor %d is %s, torch.optim.%s gives %s" % (k, case["events"][k][0], i, [float(x) for x in row["data"]], case["class"], want),
+                        return ("torch", "after event %d (%s) tensor %d is %s, torch.optim.%s gives %s" % (k, case["events"][k][0], i, [float(x) for x in row["data"]], case["class"], want),
                                 want, [float(x) for x in row["data"]])
-    return None
+    return alias
 
 
-def shrink(case, cir):
-    """greedy: drop events / tensors while the oracle still rejects"""
+def shrink(case, cir, kind):
+    """greedy: drop events / tensors while the oracle still rejects (for the same reason)"""
     cur = case
+    _judge = globals()["judge"]
+
+    def judge(c, ci):
+        v = _judge(c, ci)
+        return v if v and v[0] == kind else None
     changed = True
     while changed:
         changed = False
@@ -664,13 +670,14 @@ def run(ctx):
     # ---- violation search: the oracle's verdicts become witnesses
     if oracle_fail:
         seen = set()
-        for case, v in sorted(oracle_fail, key=lambda cv: (len(cv[0]["events"]), len(cv[0]["tensors"])))[:40]:
+        prio = {"trajectory": 0, "raise": 1, "identity": 2, "torch": 3, "alias": 4}
+        for case, v in sorted(oracle_fail, key=lambda cv: (prio[cv[1][0]], len(cv[0]["events"]), len(cv[0]["tensors"]))):
             if case["class"] in seen:
                 continue
             seen.add(case["class"])
-            small = shrink({k: vv for k, vv in case.items() if k != "grid"}, cirs[case["class"]])
+            small = shrink({k: vv for k, vv in case.items() if k != "grid"}, cirs[case["class"]], v[0])
             v2 = judge(small, cirs[case["class"]]) or v
-            ctx.witness("optim.%s.step" % case["class"], "history", jsonable(small), v2[1], {"verdict": v2[0], "observed": jsonable(v2[2])})
+            ctx.witness("optim.%s.step" % case["class"], "history/" + v2[0], jsonable(small), v2[2], {"verdict": v2[1], "observed": jsonable(v2[3])})
     ctx.extra["oracle"]["rejected"] = len(oracle_fail)
 
 
@@ -694,5 +701,5 @@ def replay(ctx, data):
         cir.hypers = [(k, "B" if isinstance(v, bool) else "Q", {"beta1": "betas[0]", "beta2": "betas[1]", "epsilon": "eps"}.get(k, k)) for k, v in case["hyper"].items()]
     v = judge(case, cir)
     print("case:", json.dumps(jsonable(case)))
-    print("verdict:", v[0] if v else "the implementation follows the documentation on this history")
+    print("verdict:", v[1] if v else "the implementation follows the documentation on this history")
     return 1 if v else 0
